@@ -1140,6 +1140,57 @@ func main() {
 		}
 		fmt.Fprintf(&ft, "/-- functions that decode an inbound record with the shared envelope parser `jmessages.parseJSON` -/\ndef envelopeParserCallers : List String := [%s]\n\n", strings.Join(callers, ", "))
 	}
+	// server/loop.go: the per-connection goroutine's call sequence and the wait-group placement
+	{
+		srvp := loadPkg(*repo, "server")
+		fd, _ := findFunc(srvp, "", "Loop")
+		if fd == nil {
+			fail("server.Loop not found")
+		}
+		var calls []string
+		addBeforeGo, waitBeforeReturn := false, false
+		ast.Inspect(fd.Body, func(n ast.Node) bool {
+			blk, ok := n.(*ast.BlockStmt)
+			if !ok {
+				return true
+			}
+			addIdx, goIdx, waitIdx, retIdx := -1, -1, -1, -1
+			for i, st := range blk.List {
+				txt := src(st)
+				switch {
+				case txt == "wg.Add(1)":
+					addIdx = i
+				case strings.HasPrefix(txt, "go func()") && strings.Contains(txt, "newService()"):
+					goIdx = i
+				case txt == "wg.Wait()":
+					waitIdx = i
+				case strings.HasPrefix(txt, "return err") && waitIdx >= 0:
+					retIdx = i
+				}
+			}
+			if addIdx >= 0 && goIdx > addIdx {
+				addBeforeGo = true
+			}
+			if waitIdx >= 0 && retIdx > waitIdx {
+				waitBeforeReturn = true
+			}
+			return true
+		})
+		want := []string{"newService()", "svc.Assigner()", "ch.Close()", "jrpc2.NewServer(assigner, serverOpts).Start(ch)", "srv.Stop()", "srv.WaitStatus()", "svc.Finish(assigner, stat)"}
+		ast.Inspect(fd.Body, func(n ast.Node) bool {
+			if call, ok := n.(*ast.CallExpr); ok {
+				txt := src(call)
+				for _, w := range want {
+					if txt == w {
+						calls = append(calls, leanStr(w))
+					}
+				}
+			}
+			return true
+		})
+		fmt.Fprintf(&ft, "/-- calls of the per-connection goroutine of `server.Loop`, in source order -/\ndef loopCalls : List String := [%s]\n", strings.Join(calls, ", "))
+		fmt.Fprintf(&ft, "/-- `wg.Add(1)` precedes the `go` statement; `wg.Wait()` precedes Loop's return -/\ndef loopWg : Bool × Bool := (%v, %v)\n\n", addBeforeGo, waitBeforeReturn)
+	}
 	ft.WriteString("end Jrpc.Gen.Facts\n")
 	write(*out, "Facts.lean", ft.String())
 }
